@@ -3,10 +3,16 @@ package checks
 import (
 	"fmt"
 	"strings"
+	"time"
 
 	"k8s.io/apimachinery/pkg/types"
+	"sigs.k8s.io/controller-runtime/pkg/client"
 
+	v1 "sigs.k8s.io/karpenter/pkg/apis/v1"
+	"sigs.k8s.io/karpenter/pkg/controllers/nodeclaim/lifecycle"
+	"sigs.k8s.io/karpenter/pkg/controllers/nodepool/registrationhealth"
 	"sigs.k8s.io/karpenter/pkg/state/nodepoolhealth"
+	"verif/world"
 
 	"verif/internal/enum"
 	"verif/internal/ev"
@@ -182,4 +188,94 @@ func init() {
 	})
 }
 
-func c20Controller(r *ev.Rec) {}
+// c20Controller: sequences of registration successes and registration timeouts through the real lifecycle controller
+// (and a restart with hydration by the real registrationhealth controller); after every outcome the NodePool's
+// NodeRegistrationHealthy condition must be what the statement says.
+func c20Controller(r *ev.Rec) {
+	depth := 6
+	if r.Tier == "thorough" {
+		depth = 8
+	}
+	ops := []string{"success", "failure", "restart"}
+	dims := make([]int, depth)
+	for i := range dims {
+		dims[i] = len(ops)
+	}
+	r.Extra["controller_level_depth"] = depth
+	enum.Run(r, enum.Size(dims...), func(idx int64, l *ev.Local) {
+		d := enum.Odo(idx, dims...)
+		w := world.New(world.Options{})
+		w.CP.Catalog[""] = world.BuildCatalog(K1)
+		np := world.NodePool("default")
+		w.Add(world.NodeClass(), np)
+		state := nodepoolhealth.NewState()
+		ctrl := lifecycle.NewController(w.Clock, w.Client, w.CP, w.Rec, state, nil)
+		health := registrationhealth.NewController(w.Clock, w.Client, w.CP, state)
+		var window []bool
+		expect := "Unknown"
+		var hist []string
+		for k, op := range d {
+			hist = append(hist, ops[op])
+			name := fmt.Sprintf("n%d", k)
+			switch ops[op] {
+			case "restart":
+				// all in-memory state is lost; the registrationhealth controller re-hydrates the tracker from the condition
+				state = nodepoolhealth.NewState()
+				ctrl = lifecycle.NewController(w.Clock, w.Client, w.CP, w.Rec, state, nil)
+				health = registrationhealth.NewController(w.Clock, w.Client, w.CP, state)
+				cur := &v1.NodePool{}
+				must(w.Raw.Get(w.Ctx, client.ObjectKey{Name: "default"}, cur))
+				_, _ = health.Reconcile(w.Ctx, cur)
+				switch expect {
+				case "True":
+					window = []bool{true}
+				case "False":
+					window = []bool{false, false}
+				default:
+					window = nil
+				}
+			case "success", "failure":
+				since := w.Clock.Now()
+				if ops[op] == "failure" {
+					since = since.Add(-16 * time.Minute)
+				}
+				nc, _ := w.BuildNode(world.NodeSpec{Name: name, Pool: "default", Type: K1[0], Offer: K1[0].Offers[0], Stage: "claim-only", Created: since})
+				t := true
+				nc.OwnerReferences = append(nc.OwnerReferences, metaOwner("NodePool", np.Name, string(np.UID), &t))
+				w.EnvUpdate(nc)
+				if ops[op] == "success" {
+					w.KubeletRegister(nc, world.RegisterOpts{})
+				}
+				_, _ = ctrl.Reconcile(w.Ctx, w.GetNodeClaim(nc.Name))
+				window = withNext(window, ops[op] == "success")
+				f := 0
+				for _, b := range window {
+					if !b {
+						f++
+					}
+				}
+				if ops[op] == "failure" && f >= 2 {
+					expect = "False"
+				}
+				if ops[op] == "success" && f < 2 {
+					expect = "True"
+				}
+			}
+			cur := &v1.NodePool{}
+			must(w.Raw.Get(w.Ctx, client.ObjectKey{Name: "default"}, cur))
+			got := string(cur.StatusConditions().Get(v1.ConditionTypeNodeRegistrationHealthy).Status)
+			l.Eval()
+			if int64(k) == int64(len(d))-1 {
+				l.Traces++
+			}
+			if got != expect {
+				l.Violation("controller: NodeRegistrationHealthy does not follow the last-four rule", fmt.Sprintf("after %v (window %s): condition is %s, the statement requires %s", hist, wstr(window), got, expect), map[string]any{"history": hist})
+				return
+			}
+		}
+		l.NontrivialH(ev.H("ctrl/" + strings.Join(hist, ",")))
+		if idx == 100 {
+			l.Sample(map[string]any{"controller_level_history": hist, "window": wstr(window), "condition": expect})
+		}
+	})
+}
